@@ -479,6 +479,10 @@ def run(ctx):
     ctx.counted('a walker object re-run', nw, nw // 2, [{'file_pattern': '*.txt', 'runs': 4}])
     from props import fringe
     fringe.twin_histories(ctx)
+    from props import glue
+    glue.interleaved_walkers(ctx)
+    glue.deep_tree_state(ctx)
+    glue.realpath_follows_fs(ctx)
     return ctx.finish(RULE)
 
 
